@@ -53,6 +53,24 @@ class Target(object):
 class BaseCtx(object):
     symbolic = False
 
+    def mk_array(self, items):
+        """array('B') holding the given byte values (model object when the interpreter runs the code)"""
+        if self.symbolic or getattr(self, "interpret", False):
+            from vc.sbytes import SArray
+            return SArray(items)
+        import array
+        return array.array("B", items)
+
+    def mk_bytes(self, items):
+        from vc.sbytes import mk_bytes
+        return mk_bytes(items)
+
+    def byte_list(self, v):
+        """list of byte scalars of a bytes / model bytes value"""
+        if isinstance(v, (bytes, bytearray)):
+            return list(v)
+        return list(v.b)
+
     def __init__(self, target):
         self.target = target
         self.checks = []       # (label, kind, ok) in concrete modes
@@ -235,6 +253,10 @@ def snapshot(v, depth=0, seen=None):
         return "..."
     if isinstance(v, (list, tuple)):
         return [type(v).__name__] + [snapshot(x, depth + 1, seen) for x in v]
+    if type(v).__name__ in ("SArray", "array"):
+        return ["array"] + list(v.b if hasattr(v, "b") else v)
+    if type(v).__name__ == "SBytes":
+        return bytes(v.b)
     if isinstance(v, (set, frozenset)):
         return ["set"] + sorted((snapshot(x, depth + 1, seen) for x in v), key=repr)
     if isinstance(v, dict):
